@@ -1,3 +1,5 @@
+//go:build go1.23
+
 package signing
 
 // C12, tECDSA signing: the eleven receiving states of the signing protocol
